@@ -205,6 +205,8 @@ func ParseField(v reflect.Value, bytes []byte, params fieldParameters) error {
 	if int64(talOff)+tal.len > int64(len(bytes)) {
 		return fmt.Errorf("type value out of range")
 	}
+	// the element ends where its length says, not where the input ends
+	bytes = bytes[:int64(talOff)+tal.len]
 
 	// An explicit tag wraps the complete encoding of the underlying type: decode what is inside it.
 	if params.tagNumber != nil && params.explicitTag {
